@@ -202,9 +202,12 @@ def tracked_validate_cases():
             return (ids[id(v.obj_ref())], attrs[v.attr]) if hasattr(v, 'obj_ref') else None
         jc, ac = H.j.converters[0], H.ia.converters[0]
         for label, v in (('plain', {'x': 1}), ('own', b.j), ('other-object', a.j), ('other-object-nested', a.j['opts']), ('own-nested', b.j['opts']),
-                         ('other-attribute-same-object', b.j2), ('other-attribute-other-object', a.j2)):
+                         ('other-attribute-same-object', b.j2), ('other-attribute-other-object', a.j2),
+                         ('wrapped-plain', orm.Json({'x': 1})), ('wrapped-own', orm.Json(b.j)), ('wrapped-other-object', orm.Json(a.j))):
             r = jc.validate(v, b)
-            out.append(('json', label, 2, 1, who(v), r is v, who(r)))
+            inner = v.wrapped if isinstance(v, orm.Json) else v
+            desc = ('W', who(inner)) if isinstance(v, orm.Json) else who(v)
+            out.append(('json', label, 2, 1, desc, r is inner, who(r)))
         for label, v in (('plain', [7]), ('own', b.ia), ('other-object', a.ia)):
             r = ac.validate(v, b)
             out.append(('array', label, 2, 3, who(v), r is v, who(r)))
